@@ -520,6 +520,11 @@ def items(tier: str, seed: int) -> List[Dict[str, Any]]:
     for eng in (0, 1):
         e = "sync" if eng == 0 else "async"
         for second in OPS:
+            if second == "SEND":      # the addressing form multiplies this shard by 8: split it by the third operation
+                for third in OPS:
+                    out.append({"ob": "actor_seq", "params": {"eng": eng, "prefix": ["SPA", second, third], "N": 4 if quick else 5},
+                                "timeout": 300 if quick else 2400, "label": f"actor_seq[{e},SPA,{second},{third}+{1 if quick else 2}]"})
+                continue
             out.append({"ob": "actor_seq", "params": {"eng": eng, "prefix": ["SPA", second], "N": 4 if quick else 5},
                         "timeout": 300 if quick else 2400, "label": f"actor_seq[{e},SPA,{second}+{2 if quick else 3}]"})
         for second in ("KFIN", "SPN", "SPB", "SPK"):
